@@ -38,12 +38,12 @@ def base_cases(ctx):
                 script = " draws=%d,%d,%d,%d,%d,%d sharddraws=0,1,2,3,0,1" % ((G.MAXU,) * 6)
                 L = G.header(w, (("plain",),), "none")
                 L += plants
-                L.append((G.FIRE + ",%d,%d,%d,%d sharddraws=0,1,2,3,0,1" % ((G.MAXU,) * 4)) if small else (G.NOFIRE + script))
+                L.append(G.FIRE if small else G.NOFIRE)
                 L.append("snap")
                 L.append(G.op(0, opk[0], KEY, *opk[1:]))
                 L.append("snap")
                 # the same logical operation re-issued once the fault is gone
-                L.append(G.NOFIRE + script)
+                L.append(G.NOFIRE)
                 L.append(G.op(0, opk[0], KEY, *opk[1:]))
                 L.append("snap")
                 out.append(({"w": w, "pre": pname, "op": opk, "fire": small}, L))
@@ -172,4 +172,4 @@ def run(ctx):
     import collections
     cnt = collections.Counter((t.get('case', {}).get('call') if isinstance(t.get('case'), dict) else '?', (t.get('detail') or [''])[0][:70]) for t in ties)
     cov['tie_classes'] = [[list(k), v] for k, v in cnt.most_common(15)]
-    return C.finish(ctx, PROPS, aud, cov, uniq, ties[:25], ASSUME)
+    return C.finish(ctx, PROPS, aud, cov, uniq, ties[:25], ASSUME, level="fault_enumeration")
